@@ -518,4 +518,6 @@ def run(chk):
     if True:
         from . import corpus
         corpus.span_expansion_rules(chk, "C04")
+    # span ids come from the runtime's rng, which emit reaches through references and bridges
+    common.wrapper_family_rule(chk, P, "C04", "emit_core::rng::Rng", 4, synonyms={"fill": ("dispatch_gen",)})
     return chk
